@@ -28,6 +28,14 @@ type Case struct {
 	Family []*gg.Case `json:"family,omitempty"` // one graph under every combination of branch outcomes
 	Rerun  []*gg.Val  `json:"rerun,omitempty"`  // further inputs on which the SAME compiled runnable of Graph is invoked again
 	Shared bool       `json:"shared,omitempty"` // the GraphBranch values of Graph were added to a Workflow before (sharedbranch.go)
+	Typed  string     `json:"typed,omitempty"`  // Graph is also built and run over other Go types (typed.go): aa | ma | am
+	// NilInput: Graph is run on the NIL value of the input type (a nil map; the untyped nil in the interface regimes of
+	// typed.go) instead of Graph.Input: START hands it on like any other value. (A flag, because the JSON form of a
+	// case cannot hold a nil map as the top-level input.)
+	NilInput bool `json:"nil_input,omitempty"`
+	// Concurrent: further inputs; the runnable compiled from Graph (by typed.go, regime Typed) is invoked on Graph.Input
+	// and on these at the same moment (concurrent.go)
+	Concurrent []*gg.Val `json:"concurrent,omitempty"`
 }
 
 type ChanOp struct {
@@ -52,6 +60,17 @@ func subset(r *lib.Rng, universe []uint64, p int) []uint64 {
 	return out
 }
 
+// untypedNil: the untyped nil among the values of a channel trace (graphgen renders it as a "bad" value: an atom no
+// generator uses, on both sides of the comparison).
+func untypedNil() *gg.Val { return &gg.Val{Kind: "bad", Bad: "untyped-nil"} }
+
+func chanValToGo(v *gg.Val) any {
+	if v.Kind == "bad" {
+		return nil
+	}
+	return v.ToGo()
+}
+
 func genChan(r *lib.Rng, tier string) *ChanCase {
 	universe := []uint64{0, 2, 3, 4, 5, 6}
 	c := &ChanCase{Ctrl: subset(r, universe, 45), Data: subset(r, universe, 45)}
@@ -67,6 +86,10 @@ func genChan(r *lib.Rng, tier string) *ChanCase {
 				switch y := r.Intn(10); {
 				case y < 1:
 					ins[k] = gg.NilMap()
+				case y < 2 && len(c.Data) <= 1:
+					// the untyped nil: a legal value of an interface-typed output; it is a delivered value like any other
+					// (only with at most one data predecessor: mergeValues cannot take the type of an untyped nil)
+					ins[k] = untypedNil()
 				case y < 3: // a key shared between sources: mergeMap must report it
 					ins[k] = gg.MapOf(gg.KV{Key: 77, V: gg.Atom(k)})
 				default:
@@ -92,7 +115,19 @@ func (engine) Generate(r *lib.Rng, tier string, i int) any {
 	return generate(r, tier, i)
 }
 
+// generate: every second single graph case also gets a typed twin (typed.go); the regime is drawn after the case.
 func generate(r *lib.Rng, tier string, i int) *Case {
+	c := generateCase(r, tier, i)
+	if c.Graph != nil && len(c.Rerun) == 0 && len(c.Concurrent) == 0 && !c.Shared {
+		if c.Typed == "" && r.Chance(1, 2) {
+			c.Typed = typedRegimes[r.Intn(len(typedRegimes))]
+		}
+		c.NilInput = r.Chance(1, 10)
+	}
+	return c
+}
+
+func generateCase(r *lib.Rng, tier string, i int) *Case {
 	o := gg.Quick()
 	if tier == "thorough" {
 		o = gg.Thorough()
@@ -123,6 +158,13 @@ func generate(r *lib.Rng, tier string, i int) *Case {
 		// a flat Graph whose branch values a Workflow has used before
 		c := genX(r, false, o.MaxNodes)
 		return &Case{Graph: c, Shared: sharedApplicable(c)}
+	case x == 8 || x == 15:
+		// concurrent first runs of one compiled runnable (concurrent.go)
+		c := genX(r, x == 15, o.MaxNodes)
+		if x == 15 && r.Chance(1, 3) {
+			zeroify(r, c)
+		}
+		return &Case{Graph: c, Concurrent: genRerunInputs(r, c.Input), Typed: concurrentRegimes[r.Intn(len(concurrentRegimes))]}
 	case x >= 24:
 		return &Case{Graph: genX(r, x > 24, o.MaxNodes)}
 	case x >= 22:
@@ -142,8 +184,13 @@ func generate(r *lib.Rng, tier string, i int) *Case {
 	case x < 12:
 		o.Clean = true
 		return &Case{Graph: gg.GenDAG(r, o)}
-	case x < 18:
+	case x < 14:
 		return &Case{Graph: gg.GenWorkflow(r, o)}
+	case x < 18: // 14 and 16 (15 = concurrent runs, 17 = re-runs)
+		// a Workflow in which a node or END is triggered without data (xgen.go zeroify)
+		c := genX(r, true, o.MaxNodes)
+		zeroify(r, c)
+		return &Case{Graph: c, Typed: typedRegimes[r.Intn(len(typedRegimes))]}
 	default:
 		o.Clean = true
 		return &Case{Graph: gg.GenWorkflow(r, o)}
@@ -201,7 +248,7 @@ func runChan(c *ChanCase) (obs []chanObs, panicked any) {
 			case "values":
 				ins := map[string]any{}
 				for k, v := range op.Ins {
-					ins[gg.KeyStr(k)] = v.ToGo()
+					ins[gg.KeyStr(k)] = chanValToGo(v)
 				}
 				_ = ch.ReportValues(ins)
 			case "deps":
@@ -321,6 +368,19 @@ func chanOracle(c *ChanCase, obs []chanObs) (string, string) {
 				}
 			}
 		}
+		if op.Op == "values" && (i == 0 || !obs[i-1].Skipped) {
+			// every value reported by a declared data predecessor is a delivered value (also a nil one)
+			for k := range op.Ins {
+				if flag, declared := o.Data[k]; declared && !flag {
+					return fmt.Sprintf("op %d: data predecessor %d reported a value but is not marked as delivered", i, k), "chan-values-not-marked"
+				}
+				if _, declared := o.Data[k]; declared {
+					if _, kept := o.Vals[k]; !kept {
+						return fmt.Sprintf("op %d: the value reported by data predecessor %d is not kept", i, k), "chan-values-not-marked"
+					}
+				}
+			}
+		}
 		if op.Op == "skip" {
 			all := true
 			for _, s := range o.Ctrl {
@@ -363,8 +423,16 @@ func (engine) Run(c any) lib.Result {
 		return runFamily(cs.Family)
 	}
 	g := cs.Graph
+	if cs.NilInput {
+		withNil := *g
+		withNil.Input = gg.NilMap()
+		g = &withNil
+	}
 	if len(cs.Rerun) > 0 {
 		return runRerun(g, cs.Rerun)
+	}
+	if len(cs.Concurrent) > 0 && cs.Typed != "" && concurrentApplicable(g, cs.Typed, cs.Concurrent) {
+		return runConcurrent(g, cs.Typed, cs.Concurrent)
 	}
 	var obs *gg.Obs
 	if cs.Shared && sharedApplicable(g) {
@@ -408,7 +476,59 @@ func (engine) Run(c any) lib.Result {
 		}
 	}
 	res.Nontrivial = gg.Nontrivial(g, obs)
+	res.Tags = append(res.Tags, zeroTags(g, cs.NilInput)...)
+	if cs.Typed != "" && !cs.Shared && res.Oracle == "" && typedApplicable(g, cs.Typed) {
+		typedTwin(g, cs.Typed, obs, &res)
+	}
 	return res
+}
+
+// zeroTags: how often the clause "(the zero value when there are none)" is exercised, by the rule evaluator's account.
+func zeroTags(g *gg.Case, nilInput bool) []string {
+	var tags []string
+	if nilInput {
+		tags = append(tags, "input:nil")
+	}
+	sp := specDAG(g)
+	if !sp.judged || nilInput {
+		return tags
+	}
+	for _, in := range sp.in {
+		if in.Kind == "nil" {
+			tags = append(tags, "zero-value:node")
+			break
+		}
+	}
+	if sp.endRan && sp.endIn.Kind == "nil" {
+		tags = append(tags, "zero-value:end")
+	}
+	return tags
+}
+
+// typedTwin: the same shape over other Go types (typed.go), judged by the same oracles and sent to the model
+// beside the M-typed run.
+func typedTwin(g *gg.Case, regime string, obs *gg.Obs, res *lib.Result) {
+	obsT := runTyped(g, regime)
+	res.Obs = map[string]any{"run": obs, "typed": regime, "typed_run": obsT}
+	res.Tags = append(res.Tags, "typed:"+regime)
+	if obsT.Class == "compile" || obsT.Class == "budget" {
+		// which types may be connected is property C07's; the twin is not judged
+		res.Tags = append(res.Tags, "typed:not-judged-"+obsT.Class)
+		return
+	}
+	note := "the same shape built as " + typedName(regime) + ": "
+	if res.Oracle == "" && (obsT.Class == "hang" || obsT.Class == "panic") {
+		res.Oracle, res.Sig = note+"Invoke ended with "+obsT.Class+": "+obsT.ErrMsg, "dag-"+obsT.Class
+	}
+	if res.Oracle == "" {
+		if msg, sig := oracleDAG(g, obsT); msg != "" {
+			res.Oracle, res.Sig = note+msg, sig
+		}
+	}
+	if msg, sig, judged := oracleSpec(g, obsT); judged && res.Oracle == "" && msg != "" {
+		res.Oracle, res.Sig = note+msg, sig
+	}
+	res.CoqTerm = "(CFamily " + lib.CoqList([]string{g.CoqCase(obs), g.CoqCase(obsT)}) + ")"
 }
 
 // runFamily runs every member; the record is in the model only if every member is.
